@@ -38,6 +38,8 @@ func main() {
 		cmdConcReplay(a)
 	case "conc-trace-check":
 		cmdConcTraceCheck(a)
+	case "probe-letchain":
+		cmdProbeLetChain(a)
 	case "replay":
 		cmdReplay(a)
 	case "lex-trace-check":
